@@ -3,6 +3,7 @@ package main
 import (
 	"fmt"
 	"go/token"
+	"go/types"
 	"sort"
 	"strconv"
 	"strings"
@@ -382,7 +383,30 @@ func (cx *Ctx) checkRoutesRegistered(r *Report) {
 	}
 	found := false
 	bad := ""
+	// the registering call sits in CreateRouter or in a helper CreateRouter hands the routes to
+	type site struct {
+		c     ssa.CallInstruction
+		outer ssa.CallInstruction // the call in CreateRouter that leads to the helper (nil: c is in CreateRouter)
+	}
+	var sites []site
 	for _, c := range callsIn(cr) {
+		sites = append(sites, site{c, nil})
+		if g := calleeOf(c); g != nil && g.Blocks != nil && g.Pkg == cr.Pkg && g != cr {
+			fromRoutes := false
+			for _, a := range c.Common().Args {
+				if strings.Contains(fx.path(a), "GetRoutes") {
+					fromRoutes = true
+				}
+			}
+			if fromRoutes {
+				for _, c2 := range callsIn(g) {
+					sites = append(sites, site{c2, c})
+				}
+			}
+		}
+	}
+	for _, st := range sites {
+		c := st.c
 		n := calleeName(c)
 		if n != "(*github.com/gorilla/mux.Router).HandleFunc" && n != "(*github.com/gorilla/mux.Router).Handle" {
 			continue
@@ -392,11 +416,15 @@ func (cx *Ctx) checkRoutesRegistered(r *Report) {
 			continue
 		}
 		tp := fx.T(fx.path(args[1]))
-		if !strings.Contains(fx.path(args[1]), "GetRoutes") && !strings.HasSuffix(tp, "<provider.Route>.Endpoint") {
+		if !strings.Contains(fx.path(args[1]), "GetRoutes") && !strings.HasSuffix(tp, "<provider.Route>.Endpoint") && !(st.outer != nil && isFieldLoadOf(args[1], "provider.Route", "Endpoint")) {
 			continue
 		}
 		found = true
-		for _, a := range fx.AtomsAt(c.(ssa.Instruction)) {
+		atoms := fx.AtomsAt(c.(ssa.Instruction))
+		if st.outer != nil {
+			atoms = append(atoms, fx.AtomsAt(st.outer.(ssa.Instruction))...)
+		}
+		for _, a := range atoms {
 			switch {
 			case a.Op == "LT" && !a.Neg:
 			case a.Op == "NIL" && a.Neg && strings.HasSuffix(a.TA, ".identityProvider"):
@@ -511,4 +539,20 @@ func (cx *Ctx) checkMetadataOfThisRequest(r *Report) {
 	} else {
 		r.Fail("R-VFG", "metadata", "", "metadata handler not found")
 	}
+}
+
+// isFieldLoadOf: v is the load of field `field` of a struct of the named type (by type, whatever the object is called).
+func isFieldLoadOf(v ssa.Value, owner, field string) bool {
+	switch x := v.(type) {
+	case *ssa.UnOp:
+		if fa, ok := x.X.(*ssa.FieldAddr); ok {
+			return fieldOwner(fa.X.Type()) == owner && fname(fieldVar(fa.X.Type(), fa.Field)) == field
+		}
+	case *ssa.Field:
+		if n := namedOf(x.X.Type()); n != nil {
+			st := x.X.Type().Underlying().(*types.Struct)
+			return shortPkg(n.Obj().Pkg().Path())+"."+n.Obj().Name() == owner && st.Field(x.Field).Name() == field
+		}
+	}
+	return false
 }
